@@ -146,7 +146,7 @@ def rt_loop_ids(q):
         if key not in _rt_loops:
             stub = os.path.join(WORK, 'rtloops_%d.c' % os.getpid())
             os.makedirs(WORK, exist_ok=True)
-            open(stub, 'w').write('#include "vp_rt.h"\nvoid vp_init_globals(void) {}\nuint32_t vp_typeid_for(uint8_t* t) { return 0; }\nint main(void) { uint8_t a[2], b[2]; vp_memcpy(a, b, 2); vp_memmove(a, b, 2); vp_memset(a, 0, 2); return vp_ctpop64(1) + vp_ctlz_n(1, 8) + vp_cttz_n(1, 8); }\n')
+            open(stub, 'w').write('#include "vp_rt.h"\nvoid vp_init_globals(void) {}\nuint32_t vp_typeid_for(uint8_t* t) { return 0; }\nuint8_t* vp_func_from_id(uint64_t x) { return 0; }\nuint64_t vp_func_to_id(uint8_t* p) { return 0; }\nint main(void) { uint8_t a[2], b[2]; vp_memcpy(a, b, 2); vp_memmove(a, b, 2); vp_memset(a, 0, 2); return vp_ctpop64(1) + vp_ctlz_n(1, 8) + vp_cttz_n(1, 8); }\n')
             ids = []
             for attempt in range(3):
                 r = sh(['cbmc', stub] + rt_files(q) + ['-I', os.path.join(ROOT, 'rt'), '--show-loops', '--json-ui'], timeout=300)
